@@ -229,7 +229,16 @@ pub fn book_case_strategy(cfg: GenCfg) -> BoxedStrategy<BookCase> {
         },
         0u32..100,
     );
-    head.prop_flat_map(move |(tick, levels, mid, t0, off)| {
+    (head, 0u32..100).prop_flat_map(move |((tick, levels, mid, t0, off), cb)| {
+        // one case in twenty: the band of prices straddles the middle of the price range with a tick that divides
+        // 2^32-1, so that the band contains pairs of grid prices p and 2^32-1-p (the bid side is keyed by 2^32-1-price:
+        // a lookup that mixes up price and key then lands on a level that exists)
+        let (tick, mid) = if cb < 5 {
+            let t = [1u32, 3, 5][(cb % 3) as usize];
+            (t, (u32::MAX / t) / 2 + 1)
+        } else {
+            (tick, mid)
+        };
         let mid = mid.min(kmax(tick).saturating_sub(4)).max(4);
         let f = Frame { tick, mid, wide: cfg.wide, offgrid: cfg.offgrid, narrow: cfg.narrow };
         let trading = off >= cfg.start_off_pct;
@@ -485,7 +494,17 @@ pub fn env_case_strategy(cfg: EnvGenCfg) -> BoxedStrategy<EnvCase> {
         let n = (kind_assets as usize).max(1);
         let levels = if kind_assets == 0 { l_env } else if kind_assets > 4 { if l_mkt % 2 == 0 { 10 } else { 3 } } else { l_mkt };
         let ticks: Vec<u32> = tm.iter().take(n).map(|x| x.0).collect();
-        let frames: Vec<Frame> = tm.iter().take(n).map(|(tick, mid)| Frame { tick: *tick, mid: *mid, wide: false, offgrid: cfg.offgrid, narrow: false }).collect();
+        // the band of prices of an asset: usually a few to a thousand ticks above zero; in one asset out of eight at the
+        // very top of the price range (highest ask a few ticks below 2^32-1) or at its very bottom (lowest bid on the
+        // first ticks), so that published levels reach beyond the range
+        let place = |tick: u32, mid: u32| -> u32 {
+            match (mid / 7) % 16 {
+                0 => kmax(tick) - 4 - mid % 24,
+                1 => 4 + mid % 20,
+                _ => mid,
+            }
+        };
+        let frames: Vec<Frame> = tm.iter().take(n).map(|(tick, mid)| Frame { tick: *tick, mid: place(*tick, *mid), wide: false, offgrid: cfg.offgrid, narrow: false }).collect();
         let trading = off >= cfg.start_off_pct;
         let is_large = !cfg.overfull && large < cfg.large_batch_pct;
         let is_large_overfull = cfg.overfull && large < cfg.large_batch_pct;
